@@ -1,6 +1,7 @@
 /- line-protocol driver for the lifting model (C05) -/
 import Flax.Base.Proto
 import Flax.Model.Lift
+import Flax.Model.ModScopes
 
 namespace Flax.Driver.C05
 open Lean Flax.Proto Flax.Filter Flax.Lift
@@ -120,6 +121,27 @@ def history (keyByFn : Bool) (variables rngs : LFilter) (f : Fn) (cls : String) 
 def callOfJson (j : Json) : Except String (List (String × Int) × List Int × ScopeSt) := do
   .ok (← attrsOfJson (← argAt j 0), ← asList asInt (← argAt j 1), ← scopeOfJson (← argAt j 2))
 
+partial def nodeOfJson (j : Json) : Except String Flax.ModScopes.Node :=
+  match j with
+  | .str "other" => .ok .other
+  | _ =>
+    match j.getObjVal? "mod", j.getObjVal? "var", j.getObjVal? "dict", j.getObjVal? "seq" with
+    | .ok v, _, _, _ => do
+        let id ← asNat (← argAt v 0)
+        let sc ← match (← argAt v 1) with | .null => pure none | x => do pure (some (← asNat x))
+        let fs ← asList (pairOfJson nodeOfJson) (← argAt v 2)
+        .ok (.mod id sc fs)
+    | _, .ok v, _, _ => match v with | .null => .ok (.var none) | x => do .ok (.var (some (← asNat x)))
+    | _, _, .ok v, _ => do .ok (.dict (← asList (pairOfJson nodeOfJson) v))
+    | _, _, _, .ok v => do .ok (.seq (← asList nodeOfJson v))
+    | _, _, _, _ => .error "bad-args"
+
+def ownerToJson : Flax.ModScopes.Owner → Json
+  | .m id sc => Json.arr #[Json.str "m", Json.num id, Json.num sc]
+  | .v sc => Json.arr #[Json.str "v", Json.num 0, Json.num sc]
+
+def pathToJson (p : List String) : Json := Json.arr (p.map Json.str).toArray
+
 def handle : Handler := fun fn a =>
   match fn with
   | "plain" => do
@@ -168,6 +190,22 @@ def handle : Handler := fun fn a =>
       let calls ← asList callOfJson (← argAt a 6)
       .ok (Json.arr (history (← asBool (← argAt a 0)) (← lfOfJson (← argAt a 1)) (← lfOfJson (← argAt a 2))
         (← fnOfJson (← argAt a 3)) (← asStr (← argAt a 4)) (← mstOfJson (← argAt a 5)) ⟨[], []⟩ calls).toArray)
+  | "ms_get" => do
+      -- [node, sortedFields]
+      let n ← nodeOfJson (← argAt a 0)
+      let ord := if (← asBool (← argAt a 1)) then Flax.ModScopes.sortKeys else id
+      .ok (Json.arr ((Flax.ModScopes.getOwners ord n).map ownerToJson).toArray)
+  | "ms_set" => do
+      -- [node, scopes handed back]
+      let n ← nodeOfJson (← argAt a 0)
+      let (asg, ok) := Flax.ModScopes.setAssign Flax.ModScopes.sortKeys n (← asList asNat (← argAt a 1))
+      .ok (Json.mkObj [("ok", Json.bool ok), ("asg", Json.arr (asg.map (fun p =>
+        Json.arr #[ownerToJson p.1, match p.2 with | some k => Json.num k | none => Json.null])).toArray)])
+  | "dedup" => do
+      let ps ← asList (asList asStr) (← argAt a 0)
+      let (roots, entries) := Flax.ModScopes.dedupScopes ps
+      .ok (Json.mkObj [("roots", Json.arr (roots.map pathToJson).toArray),
+        ("entries", Json.arr (entries.map (fun e => Json.arr #[pathToJson e.1, pathToJson e.2])).toArray)])
   | "fingerprint_eq" => do
       -- [variables, attrs1, mutable1, counters1, attrs2, mutable2, counters2]
       let mk (at_ : List (String × Int)) (mu : LFilter) (c : Counters) : JitEnv :=
